@@ -30,6 +30,17 @@ Theorem C13_alloc_exact_when_feasible : forall F_max l Cm Ct T M0 M1 M2, 0 <= F_
     [nth 8 r 0 + nth 12 r 0; nth 9 r 0 + nth 13 r 0; nth 10 r 0 + nth 14 r 0; nth 11 r 0 + nth 15 r 0]).
 Proof. exact alloc_exact_when_feasible. Qed.
 
+(* moment alone achievable: the moment part is kept, only the collective thrust is shifted, by the least amount needed *)
+Theorem C13_alloc_moment_kept : forall F_max l Cm Ct T M0 M1 M2, 0 <= F_max ->
+  rdd2_control_allocation_wp F_max l Cm Ct T M0 M1 M2 (fun r =>
+    spread4 (nth 8 r 0) (nth 9 r 0) (nth 10 r 0) (nth 11 r 0) F_max ->
+    (nth 12 r 0 = nth 13 r 0 /\ nth 13 r 0 = nth 14 r 0 /\ nth 14 r 0 = nth 15 r 0) /\
+    exists c, nth 4 r 0 = nth 8 r 0 + nth 12 r 0 + c /\ nth 5 r 0 = nth 9 r 0 + nth 13 r 0 + c /\
+              nth 6 r 0 = nth 10 r 0 + nth 14 r 0 + c /\ nth 7 r 0 = nth 11 r 0 + nth 15 r 0 + c /\
+              least_shift c 0 F_max (nth 4 r 0) (nth 5 r 0) (nth 6 r 0) (nth 7 r 0)).
+Proof. exact alloc_moment_kept. Qed.
+
 Print Assumptions C13_alloc_range.
 Print Assumptions C13_alloc_omega.
 Print Assumptions C13_alloc_exact_when_feasible.
+Print Assumptions C13_alloc_moment_kept.
